@@ -15,6 +15,10 @@ Definition go_summary := map (summarize LGo false) go_decls.
 
 Definition pair_report := map (fun p => let '(c, _, g, _) := p in (c, g, pair_agree p)) pairs.
 Definition gopair_report := map (fun p => let '(n, _, _) := p in (n, gopair_agree p)) gopairs.
+(* limit override probes: (N, what go_rule_limit gives, whether the derived limits agree) *)
+Definition limit_report (ns : list N) :=
+  map (fun n => (n, match go_rule_limit n with Some m => (true, m, limits_agreeb n m) | None => (false, 0, true) end,
+                 (c_rule_limit n, c_bitmap_words n, c_lpm_slots n))) ns.
 Definition magic_report := map (fun u => let '(n, _, _, _) := u in (n, magic_ok u)) magic_uses.
 Definition const_report := map (fun c => let '(n, _, _, _) := c in (n, const_agree c)) shared_consts.
 
